@@ -1,6 +1,10 @@
 package main
 
 import (
+	"go/types"
+
+	"golang.org/x/tools/go/ssa"
+
 	"encoding/json"
 	"flag"
 	"fmt"
@@ -421,23 +425,24 @@ func writeEvidence(ld *Loaded, id, tier string, seed int, runs []*HarnessRun, p 
 	}
 	ev := Evidence{PropertyID: id, Tier: tier, Seed: seed, Level: "model_checking", WallS: round1(wall.Seconds()), Violations: violations}
 	ev.Coverage = map[string]interface{}{
-		"states":                        paths,
-		"transitions":                   decisions,
-		"traces_validated_against_impl": replayed,
-		"samples":                       samples,
-		"exhaustive":                    false,
-		"explanation":                   "states = symbolic paths completed (each covers all inputs satisfying its path condition); transitions = solver-decided branch decisions; every assertion and built-in obligation on every path is an SMT query over all values inside the stated bounds",
-		"harnesses":                     perHarness,
-		"repo_functions_encoded":        repoFuncs,
-		"functions_encoded_total":       len(fl),
-		"intrinsics_used":               il,
-		"queries":                       q,
-		"solver_time_s":                 round1(solverS),
-		"known_findings_hit":            knownHits,
-		"unsupported":                   unsupported,
-		"notes":                         notes,
-		"bounds":                        p.Bounds,
-		"outside_bounds":                p.Outside,
+		"states":                         paths,
+		"transitions":                    decisions,
+		"traces_validated_against_impl":  replayed,
+		"samples":                        samples,
+		"exhaustive":                     false,
+		"explanation":                    "states = symbolic paths completed (each covers all inputs satisfying its path condition); transitions = solver-decided branch decisions; every assertion and built-in obligation on every path is an SMT query over all values inside the stated bounds",
+		"harnesses":                      perHarness,
+		"repo_functions_encoded":         repoFuncs,
+		"functions_encoded_total":        len(fl),
+		"intrinsics_used":                il,
+		"queries":                        q,
+		"solver_time_s":                  round1(solverS),
+		"known_findings_hit":             knownHits,
+		"unsupported":                    unsupported,
+		"notes":                          notes,
+		"process_termination_call_sites": exitSites(ld, id),
+		"bounds":                         p.Bounds,
+		"outside_bounds":                 p.Outside,
 	}
 	ev.Assumptions = append([]string{}, p.Assumptions...)
 	os.MkdirAll(filepath.Join(verif, "evidence"), 0o755)
@@ -456,4 +461,66 @@ func valOr(a, b int) int {
 		return a
 	}
 	return b
+}
+
+// exitSites enumerates, from the SSA of the library packages, every call site of log.Fatal*,
+// os.Exit and every explicit panic (C13/C14: the static part of the quantifier).  A site that an
+// explored path reaches ends that path with outcome exit/panic and is reported as a violation, so
+// on a passing run every listed site was not reached by any explored path.
+func exitSites(ld *Loaded, id string) []string {
+	if ld == nil || (id != "C14" && id != "C13" && id != "C15") {
+		return nil
+	}
+	var out []string
+	for _, pkg := range ld.prog.AllPackages() {
+		pp := pkg.Pkg.Path()
+		if !strings.HasPrefix(pp, modPath) || strings.Contains(pp, "/cmd/") || strings.HasSuffix(pp, "/vsym") || strings.Contains(pp, "/tests") || strings.HasSuffix(pp, "asntest") || strings.HasSuffix(pp, "efitest") {
+			continue
+		}
+		var fns []*ssa.Function
+		for _, m := range pkg.Members {
+			switch m := m.(type) {
+			case *ssa.Function:
+				fns = append(fns, m)
+				fns = append(fns, m.AnonFuncs...)
+			case *ssa.Type:
+				for _, T := range []types.Type{m.Type(), types.NewPointer(m.Type())} {
+					ms := ld.prog.MethodSets.MethodSet(T)
+					for i := 0; i < ms.Len(); i++ {
+						if f := ld.prog.MethodValue(ms.At(i)); f != nil && f.Pkg == pkg {
+							fns = append(fns, f)
+							fns = append(fns, f.AnonFuncs...)
+						}
+					}
+				}
+			}
+		}
+		seen := map[*ssa.Function]bool{}
+		for _, f := range fns {
+			if seen[f] || f.Blocks == nil || strings.HasPrefix(f.Name(), "V") && strings.Contains(f.Name(), "_") || strings.HasPrefix(f.Name(), "v") && strings.Contains(ld.prog.Fset.Position(f.Pos()).Filename, "zz_verif") {
+				continue
+			}
+			seen[f] = true
+			if strings.Contains(ld.prog.Fset.Position(f.Pos()).Filename, "zz_verif") {
+				continue
+			}
+			for _, b := range f.Blocks {
+				for _, in := range b.Instrs {
+					switch in := in.(type) {
+					case *ssa.Call:
+						if c := in.Call.StaticCallee(); c != nil {
+							n := c.String()
+							if strings.HasPrefix(n, "log.Fatal") || n == "os.Exit" || strings.HasPrefix(n, "log.Panic") {
+								out = append(out, fmt.Sprintf("%s: %s", f.String(), n))
+							}
+						}
+					case *ssa.Panic:
+						out = append(out, fmt.Sprintf("%s: panic", f.String()))
+					}
+				}
+			}
+		}
+	}
+	sort.Strings(out)
+	return out
 }
